@@ -1695,6 +1695,11 @@ def corr_x(ctx, n_random):
             except Exception as ex:
                 ctx.count("x:impl_raises:" + type(ex).__name__)
                 continue
+            if root is not None and len(root[0]) > 12000:
+                # hex of hex of ...: the string doubles at every nesting level; beyond this the non-tail-recursive list
+                # functions of the Coq side overflow the VM stack
+                ctx.count("x:skipped_serialisation_too_long_for_the_vm")
+                continue
             ctx.count("x:cases:skip_config" if cfg else "x:cases:options_only")
             ctx.count("x:root_skipped" if root is None else "x:root_hashed")
             for flag, nm in ((not xo[1], "apply_hash=False"), (xo[2], "notation_e"), (xo[3], "truncate_datetime"), (xo[4], "type_groups")):
@@ -1718,7 +1723,7 @@ def corr_x(ctx, n_random):
                 ctx.count("oracle:x:" + kind)
                 if h1 != h0 and not x_memo_alias(v):
                     ctx.fail({"kind": "x_" + kind, "opts": list(o), "value": e}, "hash of a value with date / Decimal / Path / object leaves changed by %s: %s" % (kind, e))
-    ctx.coq_cases("hash_x", HEADER_X, cases, shard=120, label="extended_model_root_count_and_table_values")
+    ctx.coq_cases("hash_x", HEADER_X, cases, shard=60, label="extended_model_root_count_and_table_values")
 
 
 def run(ctx):
